@@ -36,15 +36,16 @@ READERS = ["df-csv", "df-json", "df-parquet", "lod-csv", "lod-json", "geojson"]
 ALIASES = ["read_csv", "read_json", "read_geojson", "read_npz", "read_parquet"]
 NAMES = ["a", "b", "c", "d", "e"]
 
-def _table(rng, n, ncol):
+def _table(rng, n, ncol, csv_only=False):
     """Plain-Python table: list of (name, kind, values) over int / digit-str / word-str / float / iso-date-str."""
     cols = []
     for name in rng.sample(NAMES, ncol):
-        kind = rng.choice(["int", "float", "word", "digits", "iso"])
+        kind = rng.choice(["int", "float", "word", "digits", "iso"] + (["intz"] if csv_only else []))
         if kind == "int": vals = [rng.choice([1, 2, 3, 10, -5, 0, 7]) for _ in range(n)]
         elif kind == "float": vals = [rng.choice([0.5, 1.25, -3.5, 2.0, 10.75]) for _ in range(n)]
         elif kind == "word": vals = [rng.choice(["x", "yy", "abc", "q r", "ünï"]) for _ in range(n)]
         elif kind == "digits": vals = [rng.choice(["12", "7", "300", "45"]) for _ in range(n)]
+        elif kind == "intz": vals = [rng.choice(["007", "010", "5", "0042"]) for _ in range(n)]       # numbers in non-canonical text (CSV only)
         else: vals = [rng.choice(["2020-01-05", "1999-12-31", "2024-02-29"]) for _ in range(n)]
         cols.append((name, kind, vals))
     return cols
@@ -52,11 +53,12 @@ def _table(rng, n, ncol):
 def generate(rng, tier):
     mode = rng.choice(["restrict", "alias"])
     n = rng.randint(1, 6)
-    cols = _table(rng, n, rng.randint(2, 5))
+    reader0 = rng.choice(READERS)
+    cols = _table(rng, n, rng.randint(2, 5), csv_only=(mode == "restrict" and reader0 == "df-csv"))
     names = [c[0] for c in cols]
     case = {"mode": mode, "cols": cols, "writer": rng.choice(["library", "independent"]), "ragged": rng.getrandbits(16) if rng.random() < 0.4 else 0}
     if mode == "restrict":
-        case["reader"] = rng.choice(READERS)
+        case["reader"] = reader0
         k = rng.randint(1, len(names))
         sub = rng.sample(names, k)
         case["subset"] = sub if rng.random() < 0.85 else []
@@ -64,6 +66,7 @@ def generate(rng, tier):
         for name, kind, _ in cols:
             if rng.random() < 0.35 and (not case["subset"] or name in case["subset"]):
                 if kind == "int": m[name] = rng.choice(["float", "str"])
+                elif kind == "intz": m[name] = rng.choice(["str", "float"])
                 elif kind == "digits" and case["reader"] in ("df-json", "lod-json", "lod-csv", "geojson"): m[name] = "int"
                 elif kind == "iso" and case["reader"] in ("df-json", "geojson"): m[name] = "datetime64[D]"
                 elif kind == "float" and case["reader"].startswith("lod"): m[name] = "str"
@@ -132,7 +135,7 @@ def _write(case, path, fmt, enc="utf-8", sep=",", header=True):
             for k in list(r):
                 if rr.random() < 0.3 and sum(1 for q in rows if k in q) > 1:
                     del r[k]
-    lib = case["writer"] == "library"
+    lib = case["writer"] == "library" and not any(c[1] == "intz" for c in cols)
     if fmt == "csv":
         if lib and enc == "utf-8":
             di.DataFrame(**{c[0]: list(c[2]) for c in cols}).write_csv(path, sep=sep, header=header)
